@@ -725,3 +725,103 @@ Definition zone_fits (its : list item) (off : Z) : bool :=
   (off mod zone_unit its =? 0)
   (* Go prints offsets in (-60 s, 0) under a seconds-bearing element as +00:00:-SS *)
   && negb (zone_has_seconds its && (-60 <? off) && (off <? 0)).
+
+(* ------------------------------------------------------------------ *)
+(* vocabulary of the round-trip statements                              *)
+(* ------------------------------------------------------------------ *)
+(* what field k of an instant is, nanoseconds cut to the unit u *)
+Definition tval (u : Z) (t : tm) (k : fkind) : Z :=
+  match k with
+  | FYear => t_year t
+  | FYy => t_year t mod 100
+  | FMonth => t_month t
+  | FDay => t_day t
+  | FYday => t_yday t
+  | FWday => t_wday t
+  | FHour => t_hour t
+  | FH12 => hour12 (t_hour t)
+  | FPm => if 12 <=? t_hour t then 1 else 0
+  | FMin => t_min t
+  | FSec => t_sec t
+  | FNsec => t_nsec t / u * u
+  | FOff => t_off t
+  end.
+
+(* the finest offset a zone element can express *)
+Definition zs_unit (sh : zshape) : Z :=
+  match sh with ZS_hh => 3600 | ZS_hhmm | ZS_hh_mm => 60 | ZS_hhmmss | ZS_hh_mm_ss => 1 end.
+
+(* the shape of one element's text (width and character classes) *)
+Definition all_digits (s : bytes) : bool := forallb is_digit s.
+Definition is_letter (b : byte) : bool :=
+  ((65 <=? bz b) && (bz b <=? 90)) || ((97 <=? bz b) && (bz b <=? 122)).
+Definition one_or_two_digits (s : bytes) : bool :=
+  match s with
+  | [a] => is_digit a
+  | [a; b] => is_digit a && is_digit b && negb (byte_eqb a "0"%byte)
+  | _ => false
+  end.
+Definition numeric_zone_shape (sh : zshape) (s : bytes) : bool :=
+  match s with
+  | sg :: ds =>
+      (byte_eqb sg "+"%byte || byte_eqb sg "-"%byte) &&
+      match sh, ds with
+      | ZS_hh, [a; b] => all_digits [a; b]
+      | ZS_hhmm, [a; b; c; d] => all_digits [a; b; c; d]
+      | ZS_hh_mm, [a; b; k; c; d] => all_digits [a; b; c; d] && byte_eqb k ":"%byte
+      | ZS_hhmmss, [a; b; c; d; e; f] => all_digits [a; b; c; d; e; f]
+      | ZS_hh_mm_ss, [a; b; k; c; d; k2; e; f] =>
+          all_digits [a; b; c; d; e; f] && byte_eqb k ":"%byte && byte_eqb k2 ":"%byte
+      | _, _ => false
+      end
+  | [] => false
+  end.
+Definition elem_shape (e : elem) (s : bytes) : bool :=
+  match e with
+  | ELongMonth => existsb (bytes_eqb s) long_months
+  | EMonth => existsb (bytes_eqb s) short_months
+  | ELongWeekDay => existsb (bytes_eqb s) long_days
+  | EWeekDay => existsb (bytes_eqb s) short_days
+  | ENumMonth | EDay | EHour12 | EMinute | ESecond => one_or_two_digits s
+  | EZeroMonth | EZeroDay | EHour | EZeroHour12 | EZeroMinute | EZeroSecond | EYear =>
+      (List.length s =? 2)%nat && all_digits s
+  | ELongYear => (List.length s =? 4)%nat && all_digits s
+  | EZeroYearDay => (List.length s =? 3)%nat && all_digits s
+  | EUnderDay =>
+      match s with
+      | [a; b] => (byte_eqb a " "%byte || (is_digit a && negb (byte_eqb a "0"%byte))) && is_digit b
+      | _ => false
+      end
+  | EUnderYearDay =>
+      match s with
+      | [a; b; c] =>
+          is_digit c &&
+          ((byte_eqb a " "%byte && byte_eqb b " "%byte)
+           || (byte_eqb a " "%byte && is_digit b && negb (byte_eqb b "0"%byte))
+           || (is_digit a && negb (byte_eqb a "0"%byte) && is_digit b))
+      | _ => false
+      end
+  | EPM => bytes_eqb s (lit "AM") || bytes_eqb s (lit "PM")
+  | Epm => bytes_eqb s (lit "am") || bytes_eqb s (lit "pm")
+  | ETZ => true
+  | EZone iso sh => (iso && bytes_eqb s ["Z"%byte]) || numeric_zone_shape sh s
+  | EFrac nine n comma =>
+      let sep := if comma then ","%byte else "."%byte in
+      match s with
+      | [] => nine
+      | c :: ds =>
+          byte_eqb c sep && all_digits ds &&
+          (if nine
+           then (1 <=? List.length ds)%nat && (List.length ds <=? frac_digits n)%nat
+                && negb (byte_eqb (last ds "0"%byte) "0"%byte)
+           else (List.length ds =? frac_digits n)%nat)
+      end
+  end.
+
+(* the civil year an instant falls in, in a zone *)
+Definition civil_year (unix_sec off : Z) : Z :=
+  let '(y, _, _) := civil_from_days ((unix_sec + off) / 86400) in y.
+
+(* the instants of the statements: what a time.Time of the years 0..9999 can be *)
+Definition instant_ok (unix_sec nsec off : Z) : Prop :=
+  0 <= civil_year unix_sec off <= 9999 /\ 0 <= nsec < 1000000000 /\ -360000 < off < 360000.
